@@ -130,6 +130,26 @@ def o42(ctx):
                 what="convert_to_motl (STOPGAP -> particle list)")
 
 
+def o48(ctx):
+    """the import wrapper: stopgap2emmotl(table) with default options returns the renamed fields of the table, nothing renumbered"""
+    q = "cryomotl.stopgap2emmotl"
+    m, fn = ctx.prog.func(q)
+    ctx.touched(q)
+    cols = list(ctx.prog.class_attr(CLS, "columns"))
+    sgf = Frame({c: sym("sg:" + c) for c in cols}, list(cols), prefix="sg:", name="stopgap_df")
+    sgf.space = Space("sg", how="root")
+    it = Interp(ctx.prog, assume=assume_map({"isinstance(input_motl, str)": False}))
+    r = it.run(q, [sgf], {})
+    df = r.ret.attrs.get("df") if isinstance(r.ret, Obj) else None
+    if not isinstance(df, Frame):
+        raise Unsupported("stopgap2emmotl does not return a particle list", fn)
+    expect_cols(ctx, it, q, df, {k: sym("sg:" + v) for k, v in RENAMING.items()}, samplers=INT_ID,
+                what="stopgap2emmotl with default options (STOPGAP table -> particle list)")
+    ctx.count(1)
+    if r.ret.cls != "cryomotl.EmMotl":
+        ctx.finding(q, "returned object", f"stopgap2emmotl must return an EmMotl (returns {r.ret.cls})", fn, m)
+
+
 def o43(ctx):
     q = CLS + ".write_out"
     m, fn = ctx.prog.func(q)
@@ -244,9 +264,11 @@ def _obligations():
         Obligation("O4.4", "particle order: read_in returns the file block as it stands; both conversions keep the row order", o44, floor=20),
         Obligation("O4.7", "library calls on the STOPGAP conversion paths exist in the installed pandas", o47, floor=5),
         Obligation("O4.6a", "STAR writer on the via-file path: header and row text read back to the table (shared with C02)", lambda ctx: (_star.o23(ctx), _star.o25(ctx)), floor=200),
+        Obligation("O4.8", "stopgap2emmotl with default options returns the table's fields renamed, nothing renumbered", o48, floor=14),
+        Obligation("O4.6c", "STAR tokenizer / writer text on the via-file path: every line seen, text tokenised into the expected roles (shared with C02)", _star.o22, floor=8),
         Obligation("O4.6b", "STAR reader on the via-file path: numeric conversion and block tables (shared with C02)", _star.o24, floor=5),
     ]
 
 
 def obligations():
-    return _obligations() + [converters_obligation([("cryomotl.emmotl2stopgap", {"output_motl_path": K(None)}, {})]), constructors_obligation(['cryomotl.StopgapMotl']), labels_obligation("C04"), selectors_obligation("C04"), effects_obligation("C04")]
+    return _obligations() + [converters_obligation([("cryomotl.emmotl2stopgap", {"output_motl_path": K(None)}, {})]), constructors_obligation(['cryomotl.StopgapMotl']), labels_obligation("C04"), selectors_obligation("C04"), effects_obligation("C04"), plumbing_obligation("C04")]
